@@ -60,7 +60,7 @@ def _fields(ln):
 def check(case):
     res = Result()
     desc, ff, base, extra, kind = case["desc"], case["ff"], case["base"], case["extra"], case["kind"]
-    e2e.normalise(desc, base)
+    e2e.normalise(desc, list(base) + list(extra))
     s = build.materialise(desc)
     args0 = [f"--ff={ff}", *base]
     if case.get("tit"):
